@@ -178,6 +178,12 @@ let () =
            strides[0]; on a row vector (1,n) the stride of the long axis is lost *)
         let rowvec_strided = List.exists (fun a ->
             is_rowvec a.shp && (match a.str with [_; s1] -> int_of_z s1 <> 1 | _ -> false)) aps in
+        (* zero strides on an axis longer than one (broadcast views) cannot be reached by slicing
+           and transposing: outside the property's quantifier (C05_mult_zero_stride_refuted shows
+           the multi-iterator is wrong there); left unspecified *)
+        let zero_wide = List.exists (fun a ->
+            List.exists2 (fun d s -> int_of_z d <> 1 && int_of_z s = 0) a.shp a.str) aps in
+        if zero_wide then { model = m; spec = "?"; cls = "" } else
         { model = m; spec = spec_mult aps a.(1); cls = if rowvec_strided then "mult:rowvec-stride" else "" }
       | Err -> { model = "E"; spec = "-"; cls = "" }
       | Panic -> { model = "l=P"; spec = "-"; cls = "" })
